@@ -420,7 +420,7 @@ func (e *Env) tryName(name string) (Val, bool) {
 func (e *Env) evalName(name string) Val {
 	g := e.g
 	if v, ok := e.tryName(name); ok {
-		if v.Loc != nil {
+		if v.Loc != nil && v.T == "" {
 			// a variable living in memory: read it in the current state
 			return g.loadLoc(e.st, v.Loc)
 		}
@@ -442,6 +442,12 @@ func (e *Env) evalName(name string) Val {
 	}
 	if sf, ok := g.P.db.SpecFuncs[name]; ok && len(sf.Params) == 0 {
 		return e.callSpec(sf, nil)
+	}
+	if strings.Contains(name, "$") && e.pkg != nil {
+		// a closure by its go/ssa name: makeLog$1
+		if fn, ok := g.P.funcs[e.pkg.Path()+"."+name]; ok {
+			return Val{T: g.funcID(fn), Fn: fn, Sort: SInt, Go: fn.Type()}
+		}
 	}
 	efail("unknown name %q", name)
 	return Val{}
@@ -478,6 +484,12 @@ func (e *Env) evalObj(obj types.Object) Val {
 			efail("%s is not a global", o.Name())
 		}
 		return g.loadGlobal(e.st, gl)
+	}
+	if fo, ok := obj.(*types.Func); ok {
+		// a package-level function used as a value: its identity (the integer the engine gives function values)
+		if fn := g.P.ssaProg.FuncValue(fo); fn != nil {
+			return Val{T: g.funcID(fn), Fn: fn, Sort: SInt, Go: fo.Type()}
+		}
 	}
 	efail("cannot use %s in a contract", obj.Name())
 	return Val{}
